@@ -189,7 +189,7 @@ class Ctx:
         self.pool1 = frags(tag, 1, mx)
         self.small = small
         self.typable = typable
-        self.base_id = ids if ids is not None else rng.choice([None, None, None, 1, 2, 7, 12, 105])
+        self.base_id = ids if ids is not None else rng.choice([None, None, None, 0, 1, 2, 7, 12, 105])
         self.used = []  # fragments used so far in this molecule
         self.respell = respell  # write every fragment that has one in its other spelling (same molecule, other atom order)
 
@@ -331,7 +331,7 @@ def arch_block(ctx, families=None, mean_units=None):
     els = [ctx.plain()]
     capped_last = r.random() < 0.35  # the last block is closed by end groups instead of a suffix token
     per_block_ids = r.random() < 0.3  # every block uses its own descriptor id (terminals of one symbol, different ids)
-    ids = r.sample([1, 2, 3, 5, 8, 13], nb)
+    ids = r.sample([0, 1, 2, 3, 5, 8, 13], nb)
     for b in range(nb):
         if per_block_ids:
             ctx.base_id = ids[b]
@@ -363,7 +363,7 @@ def arch_block(ctx, families=None, mean_units=None):
 def arch_alternating(ctx, families=None, mean_units=None):
     """(5) alternating copolymer through ids"""
     r = ctx.rng
-    i1, i2 = r.sample([1, 2, 3, 4, 11, 25], 2)
+    i1, i2 = r.sample([0, 1, 2, 3, 4, 11, 25], 2)
     a = ctx.unit([ctx.lt(i1), ctx.gt(i2)])
     b = ctx.unit([ctx.lt(i2), ctx.gt(i1)])
     ends = [ctx.end(ctx.lt(i1)), ctx.end(ctx.lt(i2))]
@@ -400,7 +400,7 @@ def arch_star(ctx, families=None, mean_units=None):
 def arch_graft(ctx, families=None, mean_units=None):
     """(8) graft: backbone unit with a directed id-2 site, side-chain units, caps"""
     r = ctx.rng
-    gid = r.choice([2, 3, 9])
+    gid = r.choice([0, 2, 3, 9]) if ctx.base_id != 0 else r.choice([2, 3, 9])
     bb = ctx.unit([ctx.lt(), D(">", gid), ctx.gt()])
     side = ctx.unit([D("<", gid), D(">", gid)])
     ends = [ctx.end(D("<", gid)), ctx.end(ctx.lt())]
@@ -441,6 +441,33 @@ def arch_comb(ctx, families=None, mean_units=None):
     lt, rt = ctx.gt(), ctx.lt()
     s = StochAst(D(lt.sym, lt.id), D(rt.sym, rt.id), units, ends, _dist_for(ctx, units, mean_units or r.choice([1.5, 3, 4]), families=families))
     return MolAst([ctx.plain(), s, ctx.plain()], arch="comb")
+
+
+def arch_sidecap(ctx, families=None, mean_units=None):
+    """(13) a side site that no repeat unit matches: its descriptor carries a transition list that addresses end groups only, so it is capped
+    by a growth step whenever it is picked (in proportion to the list's total) and by the final capping otherwise"""
+    r = ctx.rng
+    sid = r.choice([i for i in (0, 4, 6, 9) if i != ctx.base_id])
+    caps = [ctx.end(D(">", sid, weight=r.choice([None, 2.0])), multi=False) for _ in range(r.choice([1, 2]))]
+    side = D("<", sid)
+    u = ctx.unit([ctx.lt(), side, ctx.gt()])
+    units = [u]
+    if r.random() < 0.4:
+        units.append(ctx.unit([ctx.lt(weight=ctx.weight()), ctx.gt()]))
+    closed = r.random() < 0.5
+    if closed:
+        ends = caps + [ctx.end(ctx.lt()), ctx.end(ctx.gt())]
+        s = StochAst(D(""), D(""), units, ends, _dist_for(ctx, units, mean_units or r.choice([1.5, 3]), families=families))
+        m = MolAst([s], arch="sidecap")
+    else:
+        ends = caps + [ctx.end(ctx.lt())]
+        lt, rt = ctx.gt(), ctx.lt()
+        s = StochAst(D(lt.sym, lt.id), D(rt.sym, rt.id), units, ends, _dist_for(ctx, units, mean_units or r.choice([1.5, 3]), families=families))
+        m = MolAst([ctx.plain(), s, ctx.plain()], arch="sidecap")
+    descs = s.all_descs()
+    lst = [float(r.choice([1, 2, 0.5])) if (okind == "end" and o.sym == ">" and o.id == sid) else 0.0 for o, okind, _, _ in descs]
+    side.weight = lst
+    return m
 
 
 def arch_lists(ctx, families=None, mean_units=None):
@@ -486,6 +513,7 @@ ARCHETYPES = {
     "hyper": arch_hyper,
     "lists": arch_lists,
     "comb": arch_comb,
+    "sidecap": arch_sidecap,
 }
 
 
